@@ -100,6 +100,8 @@ func c10Source(c c10Case) string {
 	b.WriteString(fmt.Sprintf("func Moved5[P %sI%s](p P, s []int) []int {\n\tswitch any(p).(type) {\n\tcase %sT%s:\n\t\treturn nil\n\t}\n\treturn s[0:p.M():%sC%s]\n}\n\n", q("A/y"), k["A/y"], q("b.io/x"), k["b.io/x"], q("a/x"), k["a/x"]))
 	// references in the key position of map and array literals (bare names when the source dot-imports)
 	b.WriteString(fmt.Sprintf("var Moved6 = map[int][3]int{%sC%s: {%sC%s: %sV%s}, %sC%s: {}}\n", q("a/x"), k["a/x"], q("A/y"), k["A/y"], q("b.io/x"), k["b.io/x"], q("b.io/x"), k["b.io/x"]))
+	// every kind of assignment to a package-level variable of another package
+	b.WriteString(fmt.Sprintf("\nfunc Moved7(n int) {\n\t%sV%s = n\n\t%sV%s += %sC%s\n\t%sV%s |= 1\n\t%sV%s++\n\tn, %sV%s = %sV%s, n\n}\n", q("a/x"), k["a/x"], q("A/y"), k["A/y"], q("b.io/x"), k["b.io/x"], q("b.io/x"), k["b.io/x"], q("a/x"), k["a/x"], q("A/y"), k["A/y"], q("A/y"), k["A/y"]))
 	return b.String()
 }
 
@@ -174,8 +176,8 @@ func c10Run(cs c10Case) (sig, what string, rec obj) {
 	if err != nil {
 		return "move-decorate-fails", err.Error(), nil
 	}
-	// the declaration to move (the movable ones are the last seven declarations)
-	idx := len(sf.Decls) - 7 + cs.Decl
+	// the declaration to move (the movable ones are the last eight declarations)
+	idx := len(sf.Decls) - 8 + cs.Decl
 	moved := sf.Decls[idx]
 	before := declFacts(afs[0].Decls[idx], info)
 	sf.Decls = append(sf.Decls[:idx:idx], sf.Decls[idx+1:]...)
@@ -360,7 +362,7 @@ func checkC10(c *Ctx) {
 	}
 	seen := map[string]bool{}
 	for len(cases) < n {
-		cs := c10Case{SrcState: map[string]string{}, DstState: map[string]string{}, SamePkg: r.Intn(3) == 0, Hops: 1 + r.Intn(2), Decl: r.Intn(7)}
+		cs := c10Case{SrcState: map[string]string{}, DstState: map[string]string{}, SamePkg: r.Intn(3) == 0, Hops: 1 + r.Intn(2), Decl: r.Intn(8)}
 		for i, p := range c10Paths {
 			cs.SrcState[p] = srcStates[r.Intn(len(srcStates))]
 			if cs.SrcState[p] == "z1" {
